@@ -5,3 +5,5 @@ void registerFamily(const char *name, Family f);
 void registerAll();
 // one per f_*.cpp
 void reg_range();
+void reg_parser();
+void reg_sock();
